@@ -75,11 +75,22 @@ func Compare(a, b any) int {
 }
 
 func Cmp[T int | int32 | int64 | int16 | int8 | uint | uint32 | uint64 | uint16 | byte | float32 | float64](a T, b any) int {
-	v := As[T](b)
-	if a == v {
+	if v, ok := b.(T); ok {
+		if a == v {
+			return 0
+		}
+		if a > v {
+			return 1
+		}
+		return -1
+	}
+	// numbers of different Go types are compared by value: converting b to the
+	// type of a would truncate 2.5 to int(2) and wrap -1 to a huge uint
+	x, y := float64(a), As[float64](b)
+	if x == y {
 		return 0
 	}
-	if a > v {
+	if x > y {
 		return 1
 	}
 	return -1
